@@ -10,9 +10,11 @@
               unscanned key, no foreign name - apart from what the target held before;
      the run finished by itself (no abort, no hang).                                                  *)
 EXTENDS Integers, Sequences, FiniteSets, TLC, Json
-VARIABLES l, bad, keys, tdb
+VARIABLES l, bad, keys, tdb, policy
 Trace == ndJsonDeserialize("trace.ndjson")
-Must(k) == k.scanned /\ k.passes /\ k.vanish = "never"
+\* key_exists = ignore: a key the target already holds is left alone (not copied, not touched)
+Kept(k) == policy = "ignore" /\ k.pre /\ k.scanned /\ k.passes
+Must(k) == k.scanned /\ k.passes /\ k.vanish = "never" /\ ~Kept(k)
 T(d) == IF tdb = -1 THEN d ELSE tdb
 Idx(s) == 1..Len(s)
 EndOK(ev) ==
@@ -20,14 +22,16 @@ EndOK(ev) ==
   /\ \A i \in Idx(ev.target) : LET t == ev.target[i] IN
         t.pre \/ \E j \in Idx(keys) : keys[j].id = t.id /\ Must(keys[j]) /\ t.db = T(keys[j].db) /\ t.val_ok /\ t.ttl_ok
   /\ \A j \in Idx(keys) : Must(keys[j]) => \E i \in Idx(ev.target) : ev.target[i].id = keys[j].id /\ ~ev.target[i].pre
+  /\ \A j \in Idx(keys) : Kept(keys[j]) => \E i \in Idx(ev.target) : ev.target[i].pre /\ ev.target[i].pre_of = keys[j].id
   /\ \A i, i2 \in Idx(ev.target) : (i # i2 /\ ~ev.target[i].pre /\ ~ev.target[i2].pre) => ev.target[i].id # ev.target[i2].id
 EventOK(ev) == CASE ev.e = "rend" -> EndOK(ev) [] OTHER -> TRUE
-TInit == l = 1 /\ bad = 0 /\ keys = <<>> /\ tdb = -1
+TInit == l = 1 /\ bad = 0 /\ keys = <<>> /\ tdb = -1 /\ policy = "none"
 TNext == /\ l <= Len(Trace) /\ l' = l + 1
          /\ LET ev == Trace[l] IN
             /\ keys' = IF ev.e = "rcase" THEN ev.keys ELSE keys
             /\ tdb' = IF ev.e = "rcase" THEN ev.tdb ELSE tdb
+            /\ policy' = IF ev.e = "rcase" THEN ev.key_exists ELSE policy
             /\ IF EventOK(ev) THEN bad' = bad ELSE PrintT(<<"REJECT", l>>) /\ bad' = bad + 1
-TSpec == TInit /\ [][TNext]_<<l, bad, keys, tdb>>
+TSpec == TInit /\ [][TNext]_<<l, bad, keys, tdb, policy>>
 Accepted == TLCGet("stats").diameter - 1 = Len(Trace)
 =============================================================================
